@@ -47,7 +47,8 @@ Fixpoint apply_results (xs : list item) (rs : list sres) : list item * list item
   | _, _ => (xs, [])
   end.
 
-(* clause codes: 4 = FIFO/exactly-once, 8 = closure consistency, 16 = stranded sender *)
+(* clause codes: 4 = FIFO/exactly-once, 8 = closure consistency, 16 = stranded sender,
+   32 = stranded receiver *)
 Definition in_flight (s : state) : list item := skipn (length (recvd s)) (sent s).
 
 (* observer step: returns the new observer state and the failed-clause mask of this step *)
@@ -85,6 +86,10 @@ Definition observe (s : state) (l : label) (o : obs) : state * N :=
       (mkState (buf s) (cap s) [] false (rx s) (rx_woken s || existsb is_wrecv ws) (rx_done s)
          (ntasks s) (wake_tasks ws (upd (tasks s) t (mkTask [] [] false (woken (tasks s t)))))
          (sent s) (recvd s), 0%N)
+  | CloseSender t, OAct ws =>
+      (mkState (buf s) (cap s) [] false (rx s) (rx_woken s || existsb is_wrecv ws) (rx_done s)
+         (ntasks s) (wake_tasks ws (upd (tasks s) t (mkTask [] [] false (woken (tasks s t)))))
+         (sent s) (recvd s), 0%N)
   | CloseRx, OAct ws =>
       (mkState (buf s) (cap s) [] false RxClosed (rx_woken s || existsb is_wrecv ws) (rx_done s)
          (ntasks s) (wake_tasks ws (tasks s)) (sent s) (recvd s), 0%N)
@@ -98,7 +103,7 @@ Fixpoint observe_all (s : state) (ls : list label) (os : list obs) : N :=
   match ls, os with
   | l :: ls', o :: os' =>
       let '(s', m) := observe s l o in
-      N.lor (N.lor m (b2N (stranded_b s') 16)) (observe_all s' ls' os')
+      N.lor (N.lor m (b2N (stranded_b s') 16 + b2N (rx_stranded_b s') 32)%N) (observe_all s' ls' os')
   | _, _ => 0%N
   end.
 
